@@ -264,6 +264,7 @@ func C06(c *core.Ctx) {
 		}
 	}
 	c.Check("R1", "dispatcher-once", a.mainFn.Pos(), nDisp == 1, fmt.Sprintf("%d call sites of reqDispacher (want exactly 1)", nDisp))
+	requestsServed(c, "R1", a)
 	recvObj := p.Method(pkgPfcp, "RxTransaction", "recv")
 	recvCalls := core.Calls(a.mainFn, recvObj)
 	if len(recvCalls) != 1 {
@@ -387,6 +388,35 @@ func C06(c *core.Ctx) {
 		c.Check("R3", "replay-bytes", w.Pos(), core.IsPath(args[0], rx, "msgBuf"), "a duplicate is answered with the cached bytes, unchanged")
 		c.Check("R3", "replay-addr", w.Pos(), core.IsPath(args[1], rx, "raddr"), "a duplicate is answered to the transaction's peer address")
 		c.Check("R3", "replay-only-found", w.Pos(), core.KnownAt(w.Block(), rxFound, true), "the replay happens only for a known transaction")
+		// "every later copy is answered with a byte-identical copy of the original response (or ignored if none had
+		// been produced)": recv leaves before the replay only for a new transaction or an empty cache
+		bad := ""
+		for _, ifi := range exitsBefore(w) {
+			cond := stripNot(ifi.Cond)
+			if core.Unwrap(cond) == core.Unwrap(rxFound) {
+				continue
+			}
+			if bo, ok := cond.(*ssa.BinOp); ok {
+				isLenBuf := func(v ssa.Value) bool {
+					cl, ok := v.(*ssa.Call)
+					if !ok {
+						return false
+					}
+					bi, ok := cl.Call.Value.(*ssa.Builtin)
+					return ok && bi.Name() == "len" && core.IsPath(cl.Call.Args[0], rx, "msgBuf")
+				}
+				_, cx := core.ConstInt(bo.X)
+				_, cy := core.ConstInt(bo.Y)
+				if (isLenBuf(bo.X) && cy) || (isLenBuf(bo.Y) && cx) {
+					continue
+				}
+				if x, _, ok := core.NilCmp(bo); ok && core.IsPath(x, rx, "msgBuf") {
+					continue
+				}
+			}
+			bad = "a duplicate can go unanswered under a condition other than 'no response cached yet' (" + c.P.Fset.Position(ifi.Cond.Pos()).String() + ")"
+		}
+		c.Check("R3", "replay-always", w.Pos(), bad == "", "every duplicate of a request whose response is cached is answered again"+map[bool]string{true: "", false: " — " + bad}[bad == ""])
 	}
 	// who may call Rx.send / sendRspTo's lookup
 	rxSendObj := p.Method(pkgPfcp, "RxTransaction", "send")
@@ -1001,6 +1031,7 @@ func C09(c *core.Ctx) {
 		}
 	}
 	c.Floor("R3", n3, 1, "calls of TxTransaction.recv")
+	responsesMatched(c, "R3", a)
 	// the response dispatcher runs only after a match
 	for _, ci := range core.Calls(a.mainFn, p.Method(pkgPfcp, "PfcpServer", "rspDispacher")) {
 		dom := false
@@ -1108,4 +1139,136 @@ func timerArmers(c *core.Ctx, rule string, a *txAnchors) {
 		}
 	}
 	c.Floor(rule, n, 3, "sites arming a transaction timer")
+}
+
+// servedUnlessExcused: the event loop gives up on a received message before `target` (the dispatch of a request,
+// the hand-over of a response to its transaction) only for reasons that lie in the message itself or in the
+// transaction lookup: the select arm, a parse error, the request/response routing predicates (functions of the
+// received message alone), the comma-ok of the transaction-table lookup, and the verdict of RxTransaction.recv.
+// Any other condition — a counter, a limit, a comparison with stored state — silently drops traffic the
+// property says is served.
+func servedUnlessExcused(c *core.Ctx, rule, key string, target ssa.Instruction, a *txAnchors, tables []*types.Var, desc string) {
+	p := c.P
+	rxRecvObj := p.Method(pkgPfcp, "RxTransaction", "recv")
+	bad := ""
+	var badPos token.Pos
+	for _, ifi := range giveUpsBefore(p, target, 0) {
+		cond := stripNot(ifi.Cond)
+		ok := false
+		// select arm / closed-channel flag
+		if bo, isBo := cond.(*ssa.BinOp); isBo {
+			for _, o := range []ssa.Value{bo.X, bo.Y} {
+				if ex, isEx := o.(*ssa.Extract); isEx {
+					if _, isSel := ex.Tuple.(*ssa.Select); isSel {
+						ok = true
+					}
+				}
+			}
+		}
+		if ex, isEx := cond.(*ssa.Extract); isEx {
+			if _, isSel := ex.Tuple.(*ssa.Select); isSel {
+				ok = true
+			}
+			if lk, isLk := ex.Tuple.(*ssa.Lookup); isLk && lk.CommaOk && ex.Index == 1 {
+				if _, f, o := core.LoadedField(lk.X); o {
+					for _, t := range tables {
+						if f == t {
+							ok = true
+						}
+					}
+				}
+			}
+			if cl, isCl := ex.Tuple.(*ssa.Call); isCl && core.Callee(cl) == rxRecvObj {
+				ok = true
+			}
+		}
+		if x, _, isNil := core.NilCmp(cond); isNil {
+			x = core.Unwrap(x)
+			if ex, isEx := x.(*ssa.Extract); isEx {
+				if cl, isCl := ex.Tuple.(*ssa.Call); isCl {
+					f := core.Callee(cl)
+					if f == rxRecvObj || (f != nil && f.Name() == "Parse" && f.Pkg() != nil && f.Pkg().Path() == core.PkgMessage) {
+						ok = true
+					}
+				}
+			}
+		}
+		// length of the received buffer (the receiver-closed mark)
+		if bo, isBo := cond.(*ssa.BinOp); isBo && !ok {
+			for i, o := range []ssa.Value{bo.X, bo.Y} {
+				if cl, isCl := o.(*ssa.Call); isCl {
+					if bi, isBi := cl.Call.Value.(*ssa.Builtin); isBi && bi.Name() == "len" {
+						root, _ := core.FieldPath(cl.Call.Args[0])
+						root = core.Unwrap(root)
+						if al, isAl := root.(*ssa.Alloc); isAl {
+							if v, o := aggregateSingleStore(al); o {
+								root = core.Unwrap(v)
+							}
+						}
+						_, isPrm := root.(*ssa.Parameter)
+						if isPrm {
+							// the packet (or its bytes) handed in by value — not state reached through a pointer receiver
+							if _, isPtr := root.Type().Underlying().(*types.Pointer); isPtr {
+								isPrm = false
+							}
+						}
+						isSel := false
+						if ex, isEx := root.(*ssa.Extract); isEx {
+							_, isSel = ex.Tuple.(*ssa.Select)
+						}
+						if _, isConst := core.ConstInt([]ssa.Value{bo.Y, bo.X}[i]); isConst && (isPrm || isSel) {
+							ok = true
+						}
+					}
+				}
+			}
+		}
+		if !ok {
+			switch cond.(type) {
+			case *ssa.Call, *ssa.BinOp:
+				ok = receivedMessageOnly(cond, 0)
+			case *ssa.Parameter:
+				ok = true // a verdict handed in by the caller, judged at the call site
+			}
+		}
+		if !ok && bad == "" {
+			bad = "the message is dropped under a condition that is neither a parse error, the request/response routing, the transaction lookup nor the duplicate verdict"
+			badPos = ifi.Cond.Pos()
+		}
+	}
+	pos := target.Pos()
+	if bad != "" && badPos.IsValid() {
+		pos = badPos
+	}
+	c.Check(rule, key, pos, bad == "", desc+map[bool]string{true: "", false: " — " + bad}[bad == ""])
+}
+
+// requestsServed files one obligation per call of the request dispatcher (P9 of C07, R1 of C06).
+func requestsServed(c *core.Ctx, rule string, a *txAnchors) {
+	p := c.P
+	dispObj := p.Method(pkgPfcp, "PfcpServer", "reqDispacher")
+	n := 0
+	for _, fn := range p.OwnFuncs() {
+		for _, ci := range core.Calls(fn, dispObj) {
+			n++
+			servedUnlessExcused(c, rule, "request-served:"+core.FnName(fn), ci.(ssa.Instruction), a, []*types.Var{a.rxTrans},
+				"every decodable request that is not a retransmission is dispatched to its handler")
+		}
+	}
+	c.Floor(rule, n, 1, "calls of the request dispatcher")
+}
+
+// responsesMatched: a response that matches an outstanding request always reaches TxTransaction.recv (C09 R3).
+func responsesMatched(c *core.Ctx, rule string, a *txAnchors) {
+	p := c.P
+	recvObj := p.Method(pkgPfcp, "TxTransaction", "recv")
+	n := 0
+	for _, fn := range p.OwnFuncs() {
+		for _, ci := range core.Calls(fn, recvObj) {
+			n++
+			servedUnlessExcused(c, rule, "response-received:"+core.FnName(fn), ci.(ssa.Instruction), a, []*types.Var{a.txTrans},
+				"every response whose (source address, sequence number) matches an outstanding request is handed to that transaction: retransmission stops and the entry is released")
+		}
+	}
+	c.Floor(rule, n, 1, "calls of TxTransaction.recv")
 }
